@@ -1,6 +1,7 @@
 import Lm.Multi
 import Lm.Inv.CoreForeign
 import Lm.Inst.CoreTie
+import Lm.Generated.Threads
 /-! # C14 — Contexts on different threads are independent; modules are thread-confined
 
 Partial.  Three layers:
@@ -33,6 +34,18 @@ theorem C14_no_shared_mutable_statics : sharedMutable = [] := by decide
 
 /-- the synchronisation objects are only the thread-key `pthread_once` guard; no lock is shared by the contexts -/
 theorem C14_sync_objects : (inventory.filter (·.sync)).map (·.name) = ["key_once"] := by decide
+
+/-- **Task threads communicate only through an eventfd write** (tie A, regenerated on every run): the only function
+Lib/core hands to another thread is `task_thread`; everything reachable from it is the user's task function (the one
+indirect call), `poll_notify_userevent` and the `write(2)` it makes on the source's own eventfd; its only store
+through a pointer is the return value it leaves in its own source.  In particular it takes no reference, touches no
+reference count, no map, no queue and no poll set of the context looping on the other thread. -/
+theorem C14_task_thread_footprint :
+    Lm.Generated.Threads.entries.map (·.entry) = ["task_thread"] ∧
+    (∀ e ∈ Lm.Generated.Threads.entries,
+      (∀ f ∈ e.calls, f ∈ ["poll_notify_userevent", "write", "__errno_location"]) ∧
+      e.indirect = ["task_thread: src->task_src.tid.fn"] ∧
+      e.writes = ["task_thread: src->task_src.retval"]) := by decide
 
 /-- **Independence**: for every interleaving of the lines of any number of threads, each thread's configuration and
 complete output trace are those of its own lines run alone -/
